@@ -788,14 +788,14 @@ const concRule = "rapid-generated scenarios: 1-4 producers each putting its own 
 
 var specConcSingle = pbt.Register(pbt.Spec[ConcCase]{
 	Prop: "C11", Name: "conc-single", Rule: "RequestQueue, " + concRule,
-	Quick: 2000, Thorough: 40000,
+	Quick: 3000, Thorough: 80000,
 	Draw: drawConc(false),
 	Run:  func(c ConcCase) *pbt.Result { return runConc(c, false) },
 })
 
 var specConcDouble = pbt.Register(pbt.Spec[ConcCase]{
 	Prop: "C11", Name: "conc-double", Rule: "RequestDoubleQueue (each element goes to queue 1 or 2; evictions are not reported by this type, so an accepted element may be unaccounted only where a forced put into a full queue could have evicted it; additionally queue 1 before queue 2 wherever the schedule makes that observable), " + concRule,
-	Quick: 1500, Thorough: 30000,
+	Quick: 2500, Thorough: 60000,
 	Draw: drawConc(true),
 	Run:  func(c ConcCase) *pbt.Result { return runConc(c, true) },
 })
@@ -806,8 +806,17 @@ func skipIfSeqFailed(t *testing.T) {
 	}
 }
 
-func TestConcSingle(t *testing.T) { skipIfSeqFailed(t); specConcSingle.Check(t) }
-func TestConcDouble(t *testing.T) { skipIfSeqFailed(t); specConcDouble.Check(t) }
+func TestConcSingle(t *testing.T) {
+	skipIfSeqFailed(t)
+	defer flushTimed("conc-single")
+	specConcSingle.Check(t)
+}
+
+func TestConcDouble(t *testing.T) {
+	skipIfSeqFailed(t)
+	defer flushTimed("conc-double")
+	specConcDouble.Check(t)
+}
 
 // Hand-written scenarios: the lost-wake-up shape and the tightest bounds.
 func TestConcBoundaries(t *testing.T) {
